@@ -199,6 +199,10 @@ pub enum FnModel {
     StrMap,
     /// Int k -> Float(k as f64 / 2.0)
     FloatMap,
+    /// evaluates an expression of its own through the string entry points (re-entrancy), returns (argument, 3)
+    Nested,
+    /// a tuple -> its length; anything else -> the library's own ExpectedTuple error
+    NeedsTuple,
 }
 
 pub fn apply_fn_model(name: &str, m: &FnModel, arg: &Value) -> Result<Value, EvalexprError> {
@@ -225,6 +229,21 @@ pub fn apply_fn_model(name: &str, m: &FnModel, arg: &Value) -> Result<Value, Eva
         FnModel::FloatMap => match arg {
             Value::Int(k) => Ok(Value::Float(*k as f64 / 2.0)),
             _ => Err(EvalexprError::CustomMessage("model function: not an int".to_string())),
+        },
+        FnModel::Nested => {
+            // a user function may use the library itself (the monitor's own sinks are switched off meanwhile: the
+            // nested evaluation is not part of the trace under observation)
+            let prev_eval = evalexpr::verif::set_eval_sink(None);
+            let prev_parse = evalexpr::verif::set_parser_sink(None);
+            let inner = evalexpr::eval("q = 1; q + 2");
+            let _ = evalexpr::eval_int("1 +");
+            evalexpr::verif::set_eval_sink(prev_eval);
+            evalexpr::verif::set_parser_sink(prev_parse);
+            Ok(Value::Tuple(vec![arg.clone(), inner?]))
+        },
+        FnModel::NeedsTuple => match arg {
+            Value::Tuple(t) => Ok(Value::Int(t.len() as i64)),
+            other => Err(EvalexprError::expected_tuple(other.clone())),
         },
     }
 }
